@@ -150,7 +150,8 @@ func spaces(tier string) []*gridx.Space {
 	if tier == "thorough" {
 		T = 6
 	}
-	pre := [][]int{nil, gridx.Rep(dryLetter, 30), gridx.Rep(wetLetter, 30)}
+	// the last prefix is a storm period followed by a long recession (base flow decays through its thresholds)
+	pre := [][]int{nil, gridx.Rep(dryLetter, 30), gridx.Rep(wetLetter, 30), append(gridx.Rep(wetLetter, 30), gridx.Rep(dryLetter, 45)...)}
 	A := func(n string, v ...float64) gridx.Axis { return gridx.Axis{Name: n, Vals: v} }
 	var out []*gridx.Space
 	add := func(a *acct, params [][]float64, names []string, T int) {
@@ -258,7 +259,7 @@ var _ = mrun.SameBits
 func Spec() *vf.Check {
 	return &vf.Check{
 		ID: "C10", Level: "exploration", BlockSize: 4096,
-		Rule: "GR4J/Sacramento/Simhyd/Surm/RunoffCoefficient: parameter grids inside the documented/physical ranges x prefixes {none, 30 dry steps, 30 storm steps} x every word of length 1..T over the (rain,PET) alphabet {(0,0),(0,5),(2,5),(30,1),(150,0),(0,0.1)}; " +
+		Rule: "GR4J/Sacramento/Simhyd/Surm/RunoffCoefficient: parameter grids inside the documented/physical ranges x prefixes {none, 30 dry steps, 30 storm steps, 30 storm + 45 dry steps} x every word of length 1..T over the (rain,PET) alphabet {(0,0),(0,5),(2,5),(30,1),(150,0),(0,0.1)}; " +
 			"every step: outputs finite and >=0, components add up, cumulative runoff(+ET) <= cumulative rain + initial storage; every final state (= every intermediate state, since all word lengths are enumerated): stores in [0,capacity], outflow + stored <= inflow + initially stored; " +
 			"GR4J X2=0, PET=0: exact closure. distinct_nontrivial = cases producing runoff.",
 		Assumptions: []string{
